@@ -216,7 +216,8 @@ Definition decide_forest (g : tgraph) (t2 : node) : option forest :=
           match all_perm_eq ts with
           | Some p => if negb (inv_ok p q) then None else
                       match forest_outs g es es q [] with
-                      | Some outs => if memn t2 outs then Some (mkF ts es outs) else None
+                      | Some outs => if memn t2 outs && negb (existsb (fun t => memn t outs) ts)   (* no input transpose is also an output transpose *)
+                                     then Some (mkF ts es outs) else None
                       | None => None
                       end
           | None => None
